@@ -87,6 +87,9 @@ class Session(object):
         self.k = 0
         kw = dict(kw)
         kw.setdefault('timeout', 30)
+        if transport not in ('fd', 'socket'):
+            kw.pop('small_sndbuf', None)
+            kw.pop('sock_timeout', None)
         if encoding:
             kw['encoding'] = encoding
             kw['codec_errors'] = codec_errors
@@ -99,6 +102,12 @@ class Session(object):
             self._raw_write = lambda b: (self.child.proc.stdin.write(b), self.child.proc.stdin.flush())
         else:
             a, b = socket.socketpair()
+            if kw.pop('small_sndbuf', False):
+                # a send buffer much smaller than the big payloads: one send() cannot take them in one go
+                a.setsockopt(socket.SOL_SOCKET, socket.SO_SNDBUF, 4096)
+            st_ = kw.pop('sock_timeout', None)
+            if st_ is not None and transport == 'socket':
+                a.settimeout(st_)          # a socket with a timeout is non-blocking underneath
             self.a, self.b = a, b
             self.thread = ThreadPeer(b, actions)
             self.thread.start()
